@@ -236,6 +236,9 @@ func (n *Node) doTheBlocks(end *chain.BlockTreeNode) {
 // stage tells where a refusal happened: "parse", "check" (maybelater=parent unknown), "accept".
 func (n *Node) Deliver(raw []byte) (err error, stage string, maybeLater bool) {
 	ch := n.Ch
+	// as the client's callers do (network payload, decoded hex): a slice without spare capacity.  btc.NewTx finds
+	// the end of its input through slice-bounds panics, and those are raised at the capacity, not at the length.
+	raw = append(make([]byte, 0, len(raw)), raw...)
 	bl, er := btc.NewBlock(raw)
 	if er != nil {
 		return er, "parse", false
